@@ -54,15 +54,21 @@ def cmd_of(a, k):
     raise vlib.MachineryError('unknown action %r' % (a,))
 
 
-def t1(ctx, exe, names, page):
+def t1(ctx, exe, names, page, cap=None):
     lines, scripts, mismatching = [], [], set()
+    rnd = random.Random(ctx.seed + 49)
     for name in names:
         edges, r = adtb.tlc_edges(ctx, MC, edge_cfg(name), 'edges_' + name)
         m = re.search(r'Page = (\d+)', edge_cfg(name))
         k = page // int(m.group(1))          # bytes per model unit
         todo, nstates = adtb.edge_paths(edges, lambda s: s['nodes'] == [] and s['nextW'] == 1)
-        ctx.log('T1 %s: TLC %d states, %d unique edges (unit = %d bytes)' % (name, nstates, len(todo), k))
+        total = len(todo)
+        if cap and total > cap:
+            rnd.shuffle(todo)
+            todo = todo[:cap]
+        ctx.log('T1 %s: TLC %d states, %d unique edges, %d replayed (unit = %d bytes)' % (name, nstates, total, len(todo), k))
         ctx.add('spec_states_covered', nstates)
+        ctx.add('edges_in_graph', total)
         ctx.add('edges_replayed', len(todo))
         sc = [['R'] + [cmd_of(a, k) for a in path] + [cmd_of(e['a'], k), 'E'] for s0, path, e in todo]
         hs = adtb.run_histories(ctx, exe, sc)
@@ -125,8 +131,8 @@ def run(ctx):
     page = adtb.driver_query(exe)['page']
     ctx.log('driver built; SM_PAGE_SIZE = %d' % page)
     # 1+2. design step (NodesOK, laws, I => P) and T1 edge dump in one TLC run per configuration
-    names = ['w2', 'w3']
-    lines, scripts, mismatching = t1(ctx, exe, names, page)
+    names = ['w2', 'w3'] + (['full'] if ctx.thorough else [])
+    lines, scripts, mismatching = t1(ctx, exe, names, page, cap=150000)
     rnd1 = random.Random(ctx.seed + 4949)
     rest = [i for i in range(len(lines)) if i not in mismatching]
     rnd1.shuffle(rest)
@@ -139,7 +145,7 @@ def run(ctx):
     n_t1 = len(lines)
     # 3. T2
     rnd = random.Random(ctx.seed * 7919 + 49)
-    nh, nops = (1500, 300) if ctx.thorough else (150, 200)
+    nh, nops = (1500, 300) if ctx.thorough else (120, 200)
     t2s = [gen_history(rnd, nops, page) for _ in range(nh)]
     hs = adtb.run_histories(ctx, exe, t2s)
     lines += hs
@@ -183,11 +189,12 @@ def run(ctx):
     for l in (lines[0], lines[n_t1 // 2], lines[n_t1] if n_t1 < len(lines) else lines[-1]):
         ctx.sample({'page': l['page'], 'events': [[e['e']] + [e.get(k) for k in ('off', 'len', 't', 'a', 'b') if k in e] +
                                                   ['->', {k: e[k] for k in ('skip', 'ret', 'runs') if k in e}, 'nodes', e.get('nodes')] for e in l['ev'][:8]]})
-    ctx.cov['rule'] = ('T1: full reachable graph of MemHdrImpl for w2 (9 units, 2 writes) and w3 (6 units, 3 writes), page = 4 units, all '
+    ctx.cov['rule'] = ('T1: full reachable graph of MemHdrImpl for w2 (8 units, 2 writes) and w3 (6 units, 3 writes)%s, page = 4 units, all '
                        'non-overlapping writes, frees at every offset, copies and contiguity queries; every unique (state, action) edge is reached on '
                        'the real mem_hdr with unit = 1 KiB by a shortest path and compared. T2: seeded random histories (%d ops: writes of 1..9000 '
                        'bytes at byte-granular offsets over 2-8 pages aimed at write ends and page boundaries +-1, frees, copies up to 40000 bytes, '
-                       'contiguity queries). Histories are validated by TLC against the P- and the I-layer. Non-trivial = distinct event sequences.' % nops)
+                       'contiguity queries). Histories are validated by TLC against the P- and the I-layer. Non-trivial = distinct event sequences.' % (
+                           ', full (8 units, 3 writes, all queries; at most 150000 edges sampled)' if ctx.thorough else '', nops))
     ctx.assumptions += ['overlapping writes and copies starting at an offset that is not in memory are outside the API (fatal_dump): the driver does '
                         'not issue them (it asks the object via getNodes()/getBlockContainingLocation()) and records a skip that P compares with the model',
                         'copied bytes are projected to (write id, offset) tags by the driver: byte = (id*131 + offset) mod 251, at most 240 writes per history',
